@@ -558,9 +558,7 @@ func concurrentReset(idx int64, r *rand.Rand) {
 		apply(inst, genOps(r, 1+r.IntN(12), false, false))
 		x := float64(1 + r.IntN(1000))
 		var wg sync.WaitGroup
-		// (MinimumMeasurement.Update is, by construction, Add(f(Get())): an identity update re-adds the old value and is not
-		// transparent next to a Reset, so the second device is not used for it)
-		if round%2 == 0 || m.kind == "minimum" {
+		if round%2 == 0 {
 			bar := make(chan struct{})
 			wg.Add(2)
 			go func() { defer wg.Done(); <-bar; inst.Reset() }()
